@@ -116,7 +116,18 @@ int main()
             unsigned dv = si->getMotionValidator()->getValidMotionCount() - v0, di = si->getMotionValidator()->getInvalidMotionCount() - i0;
             std::printf("%d %d |", nd, verdict ? 1 : 0);
             for (auto &s : orc->log) std::printf(" %s", s.c_str());
-            std::printf(" | %s %s %u %u%s\n", fr.c_str(), lvs.c_str(), dv, di, nopath ? " nopath" : "");
+            std::printf(" | %s %s %u %u%s", fr.c_str(), lvs.c_str(), dv, di, nopath ? " nopath" : "");
+            // the facts behind the segment count: (distance, longest valid segment) of the space, or of each component of a compound
+            auto hx = [](double d) { unsigned long long b; std::memcpy(&b, &d, 8); std::printf(" %016llx", b); };
+            std::printf(" | SEG");
+            if (space->isCompound() && sp != 5 && sp != 6 && sp != 8)     // the Dubins family counts on its own curve length
+            {
+                auto *cs = space->as<ob::CompoundStateSpace>();
+                for (unsigned i = 0; i < cs->getSubspaceCount(); ++i)
+                { hx(cs->getSubspace(i)->distance(s1->as<ob::CompoundState>()->components[i], s2->as<ob::CompoundState>()->components[i])); hx(cs->getSubspace(i)->getLongestValidSegmentLength()); std::printf(" %u", cs->getSubspace(i)->getValidSegmentCountFactor()); }
+            }
+            else { hx(space->distance(s1, s2)); hx(space->getLongestValidSegmentLength()); std::printf(" %u", space->getValidSegmentCountFactor()); }
+            std::printf("\n");
             si->freeState(s1); si->freeState(s2); si->freeState(tmp); si->freeState(lv); si->freeState(lv0);
         }
         else if (op == "L")
